@@ -441,7 +441,7 @@ func (t *table) formatRow(
 ) {
 	prefix := ""
 	if t.indent != 0 {
-		prefix = spaces[:2*(t.indent-1)] + "* "
+		prefix = strings.Repeat(" ", 2*(t.indent-1)) + "* "
 	}
 	spacer := ""
 	l := len(prefix) + len(name) + len(citation)
